@@ -125,6 +125,42 @@ def x_redirect(status, with_location):
     cover("redirect-" + out.split(":")[0])
 
 
+NONASCII = ("é", "✓x", "websocketé", "Upgradeé", "ü=1", "\u2028", "\U0001f600")
+
+
+def x_nonascii(field):
+    """outside the ASCII bound of the string model: a catalogue of well-formed NON-ASCII values in each field of an
+    otherwise valid 101 response (concrete per path), through connect()"""
+    import base64
+    import hashlib
+    quiet_logging()
+    val = NONASCII[sx.choice("val", len(NONASCII))]
+    mode = sx.choice("mode", 3)  # replace / append to the right value / prepend
+
+    class Srv(ReqSock):
+        def send(self, data):
+            if not self.armed:
+                head = bytes(data).decode("latin-1")
+                key = [l.split(":", 1)[1].strip() for l in head.split("\r\n") if l.lower().startswith("sec-websocket-key")][0]
+                acc = base64.b64encode(hashlib.sha1((key + "258EAFA5-E914-47DA-95CA-C5AB0DC85B11").encode()).digest()).decode()
+                vals = {"upgrade": "websocket", "connection": "Upgrade", "accept": acc, "protocol": "chat", "reason": "Switching Protocols", "extra": "v"}
+                if field != "name":
+                    right = vals[field]
+                    vals[field] = val if mode == 0 else (right + val if mode == 1 else val + right)
+                extra_name = "X-Extra"
+                if field == "name":
+                    extra_name = "X-" + val
+                resp = ("HTTP/1.1 101 %s\r\nUpgrade: %s\r\nConnection: %s\r\nSec-WebSocket-Accept: %s\r\nSec-WebSocket-Protocol: %s\r\n%s: %s\r\n\r\n"
+                        % (vals["reason"], vals["upgrade"], vals["connection"], vals["accept"], vals["protocol"], extra_name, vals["extra"]))
+                self.response = resp.encode("utf-8")
+            return ReqSock.send(self, data)
+
+    sock = Srv(b"")
+    ws = new_ws(None)
+    out = _run(lambda: ws.connect("ws://example.test/r", socket=sock, subprotocols=["chat"]), "non-ASCII %s" % field, sock)
+    cover("nonascii-" + out.split(":")[0])
+
+
 def x_frame(T, api, ending):
     """arbitrary T-byte frame-phase stream followed by end of stream or silence (timeout); the call is retried after a
     timeout like an application would; allowed outcomes: a result, or protocol / payload / connection-closed / timeout"""
@@ -211,6 +247,9 @@ def obligations(tier):
                    must_cover=["clen-big"], kernel=["_handshake._get_resp_headers"]),
         Obligation("X-redirect", x_redirect, [dict(status=s, with_location=w) for s in (301, 302, 303, 307, 308) for w in (False, True)],
                    bounds="each supported redirect status with and without a Location header", kernel=["WebSocket.connect (redirect lookup)"]),
+        Obligation("X-nonascii", x_nonascii, [dict(field=f) for f in ("upgrade", "connection", "accept", "protocol", "reason", "extra", "name")],
+                   bounds="beyond the ASCII bound: 7 well-formed non-ASCII values x {replace, append, prepend} in each of 7 fields of an otherwise valid 101 "
+                          "response (catalogue enumeration, strings concrete per path)", kernel=["_http.read_headers", "_handshake._validate", "WebSocket.connect"]),
         Obligation("X-frame", x_frame, [dict(T=t, api=a, ending=e) for t in range(0, (9 if thorough else 7)) for a in ("recv", "recv_data", "recv_data_frame")
                                         for e in ("eof", "silence") if not (e == "silence" and a != "recv_data_frame" and t > 5 and not thorough)],
                    bounds="EVERY frame-phase stream of 0..%d bytes followed by end of stream or silence, through recv / recv_data / recv_data_frame" % (8 if thorough else 6),
